@@ -63,13 +63,15 @@ class Finding:
 
 class Outcome:
     """Result of judging one case."""
-    __slots__ = ("findings", "labels", "nontrivial", "skipped")
+    __slots__ = ("findings", "labels", "nontrivial", "skipped", "metrics", "extra")
 
     def __init__(self):
         self.findings = []
         self.labels = []
         self.nontrivial = False
         self.skipped = 0
+        self.metrics = {}     # numeric counters summed over the run (e.g. states / transitions of an in-case exploration)
+        self.extra = None     # scratch for property modules (never aggregated)
 
     def fail(self, sig, msg, detail=None):
         # one finding per signature per case is enough
@@ -158,11 +160,14 @@ class Acc:
         self.findings = {}  # sig -> dict(count, case, msg, detail, src, index)
         self.skipped = 0
         self.sources = Counter()
+        self.metrics = Counter()
 
     def add(self, case, out, src, index=None, path=None):
         self.evaluations += 1
         self.sources[src] += 1
         self.skipped += out.skipped
+        if out.metrics:
+            self.metrics.update(out.metrics)
         for lab in out.labels:
             self.labels[lab] += 1
         if out.nontrivial:
@@ -190,6 +195,7 @@ class Acc:
         self.nontrivial |= other.nontrivial
         self.labels.update(other.labels)
         self.sources.update(other.sources)
+        self.metrics.update(other.metrics)
         self.skipped += other.skipped
         for s in other.samples:
             if len(self.samples) < self.MAX_SAMPLES * 2:
@@ -477,6 +483,7 @@ def run(prop_id, tier):
             "by_source": dict(total.sources),
             "labels": dict(sorted(total.labels.items())),
             "skipped_ops": total.skipped,
+            "metrics": dict(total.metrics),
             "exhaustive": exhaustive,
             "exhaustive_subdomains": getattr(mod, "EXHAUSTIVE_NOTE", {}).get(tier, "") if hasattr(mod, "EXHAUSTIVE_NOTE") else "",
             "excluded_known": excluded,
